@@ -17,6 +17,7 @@ import (
 	"golang.org/x/tools/go/ssa/ssautil"
 
 	"xpcheck/internal/cfgx"
+	"xpcheck/internal/flow"
 	"xpcheck/internal/locks"
 	"xpcheck/internal/norm"
 )
@@ -258,6 +259,64 @@ func Run(checkerDir string) ([]Result, error) {
 					okC = okP && viol == 0 && len(paths) > 0
 				}
 				add("normaliser: closure-mutated flag", okC, "calls of a local closure are inlined and its definition dropped: the flag it clears is tracked like any local")
+				// later stages: tables row by row, struct bundles field by field
+				ov := map[string][]byte{}
+				for k, v := range res.Overlay {
+					ov[k] = v
+				}
+				stageOK := true
+				cur := pk2
+				for _, stage := range []func([]*packages.Package) *norm.Result{
+					func(ps []*packages.Package) *norm.Result { return norm.Unroll(ps, "xpcheck") },
+					func(ps []*packages.Package) *norm.Result { return norm.Scalarise(ps, "xpcheck") },
+				} {
+					r := stage(cur)
+					if len(r.Overlay) != 1 {
+						stageOK = false
+						break
+					}
+					for k, v := range r.Overlay {
+						ov[k] = v
+					}
+					cfg3 := *cfg
+					cfg3.Fset = token.NewFileSet()
+					cfg3.Overlay = ov
+					pk3, err := packages.Load(&cfg3, "./testdata/positive")
+					if err != nil || len(pk3) != 1 || len(pk3[0].Errors) > 0 {
+						stageOK = false
+						break
+					}
+					cur = pk3
+				}
+				if stageOK {
+					prog3, sp3 := ssautil.AllPackages(cur, ssa.InstantiateGenerics)
+					prog3.Build()
+					tc, bm := sp3[0].Func("TableCompare"), sp3[0].Func("BundleMax")
+					same := 0
+					for _, b := range tc.Blocks {
+						for _, in := range b.Instrs {
+							if bo, ok := in.(*ssa.BinOp); ok && bo.Op == token.NEQ {
+								_, px, okx := flow.AccessPathC(cfgx.ResolveAt(bo.X, b))
+								_, py, oky := flow.AccessPathC(cfgx.ResolveAt(bo.Y, b))
+								if okx && oky && px == py && px != "" {
+									same++
+								}
+							}
+						}
+					}
+					add("normaliser: table written out row by row", len(cfgx.BackEdges(tc)) == 0 && same == 3, fmt.Sprintf("no loop is left and %d of 3 comparisons are between the fields their row names (the conditionally appended row resolved under its flag)", same))
+					mem := 0
+					for _, b := range bm.Blocks {
+						for _, in := range b.Instrs {
+							switch in.(type) {
+							case *ssa.Alloc, *ssa.FieldAddr, *ssa.Store:
+								mem++
+							}
+						}
+					}
+					add("normaliser: struct bundle taken apart", mem == 0, "accumulators kept in fields of a local struct, copied as a whole, are SSA values afterwards")
+				}
+				add("normaliser: later stages plan and type-check", stageOK, "table unrolling and bundle splitting of the control package")
 			}
 		}
 		add("normaliser plans and type-checks", okPlan, detail)
